@@ -77,7 +77,7 @@ def _family() -> dict[str, dict[str, Any]]:
     return P
 
 
-UNSUPPORTED = ["switch_3way", "scan_reverse", "fori_traced_upper", "function_in_loop_body"]
+UNSUPPORTED = ["switch_3way", "scan_reverse", "scan_reverse_no_xs_ys", "scan_reverse_no_xs_carry", "fori_traced_upper", "function_in_loop_body"]
 
 
 def _unsupported(name: str):
@@ -89,6 +89,10 @@ def _unsupported(name: str):
         return (lambda i, x: lax.switch(i, [lambda v: v + 1, lambda v: v * 2, lambda v: -v], x)), [((), I32), ((3,), F32)], [[I32(i), np.array([0.3, -0.2, 0.5], F32)] for i in (0, 1, 2, -1, 4)]
     if name == "scan_reverse":
         return (lambda xs: lax.scan(lambda c, r: (c + r, c * r), jnp.zeros((3,), xs.dtype), xs, reverse=True)), [((4, 3), F32)], [[np.arange(12, dtype=F32).reshape(4, 3) / 10]]
+    if name == "scan_reverse_no_xs_ys":
+        return (lambda x: lax.scan(lambda c, _: (c * 0.5 + 1.0, c * 2.0), x, None, length=4, reverse=True)), v, [[np.array([0.3, -0.2, 0.5], F32)]]
+    if name == "scan_reverse_no_xs_carry":
+        return (lambda x: lax.scan(lambda c, _: (c * 0.5 + 1.0, None), x, None, length=4, reverse=True)[0]), v, [[np.array([0.3, -0.2, 0.5], F32)]]
     if name == "fori_traced_upper":
         return (lambda n, x: lax.fori_loop(0, n, lambda i, u: u * 1.5 + 1, x)), [((), I32), ((3,), F32)], [[I32(n), np.array([0.3, -0.2, 0.5], F32)] for n in (0, 1, 4)]
     from vlib import fnmods
